@@ -324,7 +324,7 @@ def check(tier, seed, t0):
             for k in range(parts):
                 lo = k * n // parts
                 hi = (k + 1) * n // parts
-                shards.append({"fe": fe, "backend": backend, "prefix": "/" if k % 2 == 0 else "/dav/", "seed": seed * 100 + len(shards), "slice": [lo, hi, step], "variant": False})
+                shards.append({"fe": fe, "backend": backend, "prefix": "/" if k % 2 == 0 else "/dav/", "seed": seed * 100 + len(shards), "slice": [lo, hi, step], "variant": (k % 2 == 1)})
     if tier == "thorough":
         for fe in ("wsgi", "aio", "wsgihost"):
             for backend in ("tree", "bare"):
